@@ -57,6 +57,7 @@ type lkSc struct {
 	Filter   bool     `json:"filter,omitempty"`    // query filter installed
 	IPLimit  int      `json:"ip_limit,omitempty"`  // >0: diversity filter with this table limit
 	SeedConn bool     `json:"seed_conn,omitempty"` // seeds are already connected (no dial)
+	CancelMs int      `json:"cancel_ms,omitempty"` // >0: the caller cancels the lookup's context this long after starting it
 }
 
 const unknownBase = 8000 // pool indices of peers that liars may name but that do not exist
